@@ -1482,9 +1482,14 @@ class CanUnprotect(BaseSecurityContext):
     def _uncompress(option_data, payload):
         if option_data == b"":
             firstbyte = 0
+            tail = b""
         else:
             firstbyte = option_data[0]
             tail = option_data[1:]
+            if firstbyte == 0:
+                # RFC 8613 Section 6.1: all-zero flag bits are expressed as
+                # the empty option
+                raise DecodeError("Flag byte without any flag set")
 
         unprotected = {}
 
@@ -1497,6 +1502,9 @@ class CanUnprotect(BaseSecurityContext):
         if pivsz:
             if len(tail) < pivsz:
                 raise DecodeError("Partial IV announced but not present")
+            if pivsz > 1 and tail[0] == 0:
+                # RFC 8613 Section 5: leading zeros are removed
+                raise DecodeError("Partial IV has leading zero bytes")
             unprotected[COSE_PIV] = tail[:pivsz]
             tail = tail[pivsz:]
 
@@ -1514,6 +1522,8 @@ class CanUnprotect(BaseSecurityContext):
         if firstbyte & COMPRESSION_BIT_K:
             kid = tail
             unprotected[COSE_KID] = kid
+        elif tail:
+            raise DecodeError("Trailing data in OSCORE option")
 
         if firstbyte & COMPRESSION_BIT_GROUP:
             # Not really; As this is (also) used early on (before the KID
